@@ -38,6 +38,8 @@ type c18StubTxn struct {
 	DataOp   int
 	NoopOp   int
 	Reset    bool // the client calls Reset after a refused DATA (otherwise it goes straight to the next Mail)
+	Retry    bool // the refusal is a passing one: the client asks again in the same transaction and gets 354
+	FirstOp  int  // index of the refused first attempt when Retry
 }
 
 // genC18Stub: the real LMTP client against a scripted server. What the real
@@ -71,6 +73,13 @@ func genC18Stub(t *Tape, sc *Scenario, x *c18X) *Scenario {
 				tx.Finals = append(tx.Finals, f)
 				st.Finals = append(st.Finals, f)
 			}
+		}
+		if tx.Data != 354 && t.Chance(1, 3) {
+			// a passing refusal: the same transaction, asked again, goes through
+			tx.Retry, tx.Reset = true, false
+			st.Retry = true
+			tx.FirstOp = len(cl.Ops)
+			cl.Ops = append(cl.Ops, ClientOp{Kind: opData, Body: []byte("never sent\r\n"), UseCb: tx.UseCb})
 		}
 		tx.DataOp = len(cl.Ops)
 		cl.Ops = append(cl.Ops, ClientOp{Kind: opData, Body: []byte(fmt.Sprintf("message %d\r\n", m)), UseCb: tx.UseCb})
@@ -108,7 +117,10 @@ func checkC18Stub(sc *Scenario, h *History, x *c18X) []Violation {
 			}
 		}
 		d := res[tx.DataOp]
-		if tx.Data != 354 {
+		if tx.Retry && res[tx.FirstOp].DataErr == "" {
+			v("C18.data", "transaction %d: the server refused the first DATA with %d but Data()/LMTPData() returned no error", ti, tx.Data)
+		}
+		if tx.Data != 354 && !tx.Retry {
 			if d.DataErr == "" {
 				v("C18.data", "transaction %d: the server refused DATA with %d but Data()/LMTPData() returned no error", ti, tx.Data)
 			}
@@ -418,6 +430,9 @@ func classifyC18(sc *Scenario, h *History, st *Stats) string {
 		st.Probes["scripted_lmtp_server"]++
 		var key []string
 		for i, tx := range x.Stub {
+			if tx.Retry {
+				st.Probes["DATA_refused_once_then_accepted_in_the_same_transaction"]++
+			}
 			if tx.Data != 354 {
 				st.Faults["DATA_refused_after_recipients_were_accepted"]++
 				if i+1 < len(x.Stub) && !tx.Reset {
@@ -481,7 +496,7 @@ func init() {
 		Real:        []string{"smtp.Client (NewClientLMTP, Mail, Rcpt, LMTPData, Data, dataCloser.Close, Noop, Quit)", "smtp.Server in LMTP mode, handleDataLMTP, statusCollector", "net/textproto"},
 		Stub:        []string{"net.Listener (SimListener)", "net.Conn (SimConn)", "Backend/LMTPSession (SimBackend)", "in a fifth of the seeded runs the peer is a scripted LMTP server instead of smtp.Server (it can refuse DATA after accepting recipients, which the real server never does)", "clock (synctest): a Close that waits for replies that never come costs 12 fake minutes and is detected as such"},
 		Assumptions: []string{"'Close returns once exactly those replies have been read' is judged as: within one fake minute, and the following NOOP gets its own reply"},
-		Required:    []string{"second_or_later_transaction", "recipient_refused_after_DATA", "recipient_refused_at_RCPT", "per_recipient_reply_later_than_CommandTimeout", "message_produced_slower_than_CommandTimeout", "conversation_broken_off_by_Server.Close", "conversation_broken_off_by_backend_panic", "conversation_broken_off_by_failing_reply_write", "conversation_broken_off_by_blocked_reply_write", "multi_line_per_recipient_reply", "DATA_refused_after_recipients_were_accepted", "next_Mail_without_Reset_after_refused_DATA"},
+		Required:    []string{"second_or_later_transaction", "recipient_refused_after_DATA", "recipient_refused_at_RCPT", "per_recipient_reply_later_than_CommandTimeout", "message_produced_slower_than_CommandTimeout", "conversation_broken_off_by_Server.Close", "conversation_broken_off_by_backend_panic", "conversation_broken_off_by_failing_reply_write", "conversation_broken_off_by_blocked_reply_write", "multi_line_per_recipient_reply", "DATA_refused_once_then_accepted_in_the_same_transaction", "DATA_refused_after_recipients_were_accepted", "next_Mail_without_Reset_after_refused_DATA"},
 		QuickRuns:   120000, ThoroughRuns: 2000000,
 	})
 }
